@@ -1043,9 +1043,10 @@ func (e *Engine) NotifyNewBlocks(blks []blocks.Block) {
 		k := b.Cid()
 		blockSize := blockSizes[k]
 
+		// Keep the read lock until the tasks are queued: PeerDisconnected (which clears ledger and
+		// queue under the write lock) then either comes first and is seen, or wipes these tasks.
 		e.lock.RLock()
 		peers := e.peerLedger.Peers(k)
-		e.lock.RUnlock()
 
 		for _, entry := range peers {
 			work = true
@@ -1070,6 +1071,7 @@ func (e *Engine) NotifyNewBlocks(blks []blocks.Block) {
 			})
 			e.updateMetrics()
 		}
+		e.lock.RUnlock()
 	}
 
 	if work {
@@ -1115,11 +1117,10 @@ func (e *Engine) PeerConnected(p peer.ID) {
 
 // PeerDisconnected is called when a peer disconnects.
 func (e *Engine) PeerDisconnected(p peer.ID) {
-	e.peerRequestQueue.Clear(p)
-
 	e.lock.Lock()
 	defer e.lock.Unlock()
 
+	e.peerRequestQueue.Clear(p)
 	e.peerLedger.PeerDisconnected(p)
 	e.scoreLedger.PeerDisconnected(p)
 }
